@@ -34,15 +34,21 @@ RULE = ("Hypothesis draws well-formed definition closures (vlib.defgen.programs:
         "id / struct named like something the generated Python module imports or defines for itself (27 names x 5 kinds, rotating slice), definitions that "
         "need padding compiled with auto_pad off and validation on (through compile() keywords, the CLI flag and compiler_options in the YAML; "
         "hand-written layouts and the generator's layout profile), generated programs of the generator's 'fractional-length' and 'reserved-field-name' classes, plus a rotating slice "
-        "(all in the thorough tier) of the generator's 804-case conflict table; a rejection is only counted, an accepted one gets the same cross-language "
-        "comparison with the parser model as reference.  Non-trivial = accepted program with >=2 distinct "
+        "(all in the thorough tier) of the generator's 804-case conflict table, plus the 29 kinds of vlib.defgen.add_hygiene (a constant that is .inf / -.inf / .nan or a YAML "
+        "bool; a constant, string constant, alias, host, module, struct, message, signal or field whose name is no identifier - MAX-N, N.MAX, MAX N; an alias, struct, "
+        "message or signal named like a native type; a field named like a Python descriptor class, like the type of a later field, like a Python keyword, like a C "
+        "keyword; a constant named like a field), each once per run on a two-message base and one random program in eight; a rejection is only counted, an accepted one gets the same cross-language "
+        "comparison with the parser model as reference.  The random programs include array lengths whose '/' does not come out whole and is used further ((BITS / 8) * N, "
+        "N / 2 + N / 2: true division, truncated once), constant and length expressions with << >> | & ^ ~ // % ** and unary signs, expressions naming 11-16 constants and "
+        "string constants with line breaks / tabs (the covering family has hand-written members of each).  Non-trivial = accepted program with >=2 distinct "
         "native widths and >=1 nested or array field; distinct = set of (resolved native type, scalar/array) + nesting depth + options.")
 ASSUME = [
     "no MATLAB/Octave in the sandbox: the .m output is executed by vlib.langs.matlab_run, an interpreter for the statement subset the back end emits",
     "JavaScript objects carry no element widths: for JS 'element type' means string / number / nested object; char[n] may be one string (length not carried) or n one-char strings",
     "MATLAB holds char data as int8: char and int8 are not told apart there",
     "constant values are compared exactly (identical doubles; every back end prints Python's shortest round-trip repr); 2.0 and 2 count as the same number for JavaScript and MATLAB, which have one number type, while Python and C must also agree on int versus float",
-    "constant expressions use the operators the documentation and the shipped examples show (* + - and parentheses) and '/', which the compiler evaluates with the same arithmetic",
+    "constant and array-length expressions are arithmetic on numbers once the constant names are replaced by their values: the operators the documentation shows (* + - and parentheses), '/' (true division; an array length is truncated once, at the end) and the other operators of that arithmetic (<< >> | & ^ ~ // % ** unary + -) on whole numbers",
+    "hygiene near misses (non-identifier names, native type names, keyword / descriptor field names, non-finite or boolean constants, constants named like fields) may be refused by the compiler; only an accepted one whose outputs disagree or do not load is reported, under near-miss-accepted/<construct>/<language>-<aspect>",
     "a length-1 array and a scalar are the same bytes and are treated as equal (the Python back end emits a scalar, C emits x[1])",
     "the C header is probed only for closures that do not use core type names (the header omits the core definitions on purpose: C clients include RTMA.h, which is not part of the repository)",
     "programs are compiled with validate_alignment on (switching it off is the user's explicit opt-out of the layout guarantee)",
@@ -55,6 +61,9 @@ ALLOW = ("prefix-names", "zero-length", "long-names")  # zero-length: rejected b
 # classes that were tied to compiler defects which are repaired now: part of the normal domain, kept at a moderate weight
 FORMER = ("alias-of-imported-struct", "alias-of-imported-struct-field", "struct-contains-message", "string-special")
 PREFIXES = ("MT_", "MID_", "HID_", "defines_")
+# array lengths whose '/' does not come out whole and is used further ((BITS / 8) * N, N / 2 + N / 2); constant and length expressions with
+# shifts, bitwise operators, floor division, remainder, power and unary signs
+EXPRS = ("inexact-div-length", "rich-operators", "many-symbols", "string-control")
 
 
 # ------------------------------------------------------------------------------------------------
@@ -74,6 +83,12 @@ COVER_CONSTS = [
     ("N1", "3"), ("N10", "10"), ("CH2", "2"), ("CH25", "25"), ("CVS_SUM", "N1 + N10"), ("CVS_PROD", "N1 * N10 + N1"), ("CVS_CH", "CH2 * CH25"),
     # whole numbers that come out of a division (a float for the evaluator) and serve as array lengths
     ("CVD_BUF", "64"), ("CVD_HALF", "CVD_BUF / 2"), ("CVD_QUART", "CVD_HALF / 2"),
+    # whole-number constants for array lengths whose '/' does NOT come out whole and is used further (true division, truncated once at the end)
+    ("CVI_BITS", "12"), ("CVI_CHANS", "4"), ("CVI_ODD", "5"), ("CVI_SEVEN", "7"),
+    # shifts, bitwise operators, floor division, remainder, power, unary signs (evaluated like any arithmetic on whole numbers)
+    ("CVO_BITS", "3"), ("CVO_NBUF", "1 << CVO_BITS"), ("CVO_MASK", "(1 << CVO_BITS) - 1"), ("CVO_OR", "CVO_MASK | 0xF0"), ("CVO_AND", "CVO_OR & 0x3C"),
+    ("CVO_XOR", "CVO_OR ^ CVO_MASK"), ("CVO_NOT", "~CVO_MASK & 0xFF"), ("CVO_SHR", "CVO_OR >> 2"), ("CVO_FLOOR", "CVI_SEVEN // 2"), ("CVO_MOD", "CVD_BUF % CVI_SEVEN"),
+    ("CVO_POW", "2 ** CVO_BITS"), ("CVO_NEG", "-CVO_BITS + 2 * CVO_BITS"), ("CVO_POS", "+CVO_BITS"), ("CVO_ALIGN", "(CVI_SEVEN + 7) // 8 * 8"),
 ]
 # the same with names that corrupt the expression when substituted textually (a separate program: such a compiler crashes or rejects)
 SUBSTRING_CONSTS = [
@@ -141,7 +156,7 @@ def eval_const(text, env):
     expr = text
     for sym in dict.fromkeys(re.findall(r"\b[a-zA-Z_]+\w*\b", text)):
         expr = re.sub(rf"\b{sym}\b", str(env[sym]), expr)
-    if not re.fullmatch(r"[0-9a-fA-FxX.+\-*/() eE]*", expr):
+    if not re.fullmatch(G.EXPR_CHARS, expr):
         raise HarnessError(f"unexpected constant expression {text!r}")
     return eval(expr, {"__builtins__": {}}, {})
 
@@ -269,6 +284,20 @@ def covering_program(core: bool, variant: int) -> G.Program:
                               G.FieldSpec("c", "char[N10]", "char", 10, "N10"), G.FieldSpec("d", "int16[CVD_BUF / 2]", "int16", 32, "CVD_BUF / 2"),
                               G.FieldSpec("e", "uint8[CVD_HALF]", "uint8", 32, "CVD_HALF"), G.FieldSpec("f", "double[CVD_QUART / 4]", "double", 4, "CVD_QUART / 4"),
                               G.FieldSpec("g", "CV_INT8[CVD_BUF / 32]", "CV_INT8", 2, "CVD_BUF / 32")]))
+    # inexact quotients used further: 12 / 8 * 4 is 6 (not 1 * 4), 5 / 2 + 5 / 2 is 5 (not 2 + 2), 7 / 2 * 2 is 7 (not 6); and the other operators
+    defs.append(G.Def(kind="message", name="CV_INEXACT", file=path, id=4325,
+                      fields=[G.FieldSpec("a", "uint8[(CVI_BITS / 8) * CVI_CHANS]", "uint8", 6, "(CVI_BITS / 8) * CVI_CHANS"),
+                              G.FieldSpec("b", "int16[CVI_ODD / 2 + CVI_ODD / 2]", "int16", 5, "CVI_ODD / 2 + CVI_ODD / 2"),
+                              G.FieldSpec("c", "char[CVI_SEVEN / 2 * 2]", "char", 7, "CVI_SEVEN / 2 * 2"),
+                              G.FieldSpec("d", "int32[CVI_CHANS * (CVI_ODD / 2)]", "int32", 10, "CVI_CHANS * (CVI_ODD / 2)"),
+                              G.FieldSpec("e", "uint8[CVI_SEVEN / 2]", "uint8", 3, "CVI_SEVEN / 2"),
+                              G.FieldSpec("f", "CV_INT8[(CVI_ODD / 2) * 2]", "CV_INT8", 5, "(CVI_ODD / 2) * 2")]))
+    defs.append(G.Def(kind="message", name="CV_OPERATORS", file=path, id=4326,
+                      fields=[G.FieldSpec("a", "uint8[1 << CVO_BITS]", "uint8", 8, "1 << CVO_BITS"), G.FieldSpec("b", "int16[CVO_OR >> 4]", "int16", 15, "CVO_OR >> 4"),
+                              G.FieldSpec("c", "char[CVO_MASK | 8]", "char", 15, "CVO_MASK | 8"), G.FieldSpec("d", "int32[CVO_OR & 6]", "int32", 6, "CVO_OR & 6"),
+                              G.FieldSpec("e", "uint8[CVO_MASK ^ 2]", "uint8", 5, "CVO_MASK ^ 2"), G.FieldSpec("f", "uint8[~CVO_MASK & 0xF]", "uint8", 8, "~CVO_MASK & 0xF"),
+                              G.FieldSpec("g", "double[CVI_SEVEN // 2]", "double", 3, "CVI_SEVEN // 2"), G.FieldSpec("h", "int16[CVD_BUF % CVI_SEVEN + 3]", "int16", 4, "CVD_BUF % CVI_SEVEN + 3"),
+                              G.FieldSpec("i", "float[2 ** CVO_BITS]", "float", 8, "2 ** CVO_BITS"), G.FieldSpec("j", "uint8[-CVO_BITS + 11]", "uint8", 8, "-CVO_BITS + 11")]))
     defs.append(G.Def(kind="signal", name="CV_SIGNAL", file=path, id=4323))
     defs.append(G.Def(kind="module", name="CV_MODULE", file=path, value=42))
     defs.append(G.Def(kind="host", name="CV_HOST", file=path, value=77))
@@ -379,6 +408,8 @@ def case_findings(program: G.Program, ex: L.Exam):
             hit = [n for n in list(ref["mt"]) + list(ref["mid"]) + list(ref["hid"]) if any(p in n for p in PREFIXES) and
                    any(n.replace(p, "", 1) == leaf for p in PREFIXES)]
             q = "/name-contains-" + next(p for p in PREFIXES if p in hit[0]) if hit else ""
+        elif "string-control" in program.classes and "defines" in e.text:
+            q = "/string-control"
         out.append((f"matlab/load/{type(e).__name__}{q}", f"the MATLAB script fails: {e}"))
     return out
 
@@ -437,7 +468,7 @@ def run_case(E: L.Examiner, program: G.Program, res: Result = None):
         res.count("auto-pad" if program.auto_pad else "no-auto-pad")
         for c in program.classes:
             if c in ALLOW or c in FORMER or c in ("needs-padding", "alias-field", "struct-array", "reuse", "message-in-message", "expr-length", "covering",
-                                                   "const-float-17", "const-expr-float", "const-float", "const-expr"):
+                                                   "const-float-17", "const-expr-float", "const-float", "const-expr", "div-length") or c in EXPRS:
                 res.count("class/" + c)
         nontrivial, sh = shape_of(program)
         if nontrivial:
@@ -779,8 +810,27 @@ def shard(seed, n, idx, quick):
                 res.count("near-miss/generated-" + sub)
             res.evaluations += 1
 
+        def hygiene(q):
+            label = q.expect["label"]
+            for key, what in run_near_miss(E, label, q, q.compile_kwargs(), res):
+                res.add_finding(key, f"[{q.expect['hygiene']}: {q.expect.get('name')}] " + what.replace("accepts a file it should reject", "accepts a file with a construct it could refuse"),
+                                {"key": key, "near_miss": label, "src": {"files": dict(q.files), "root": q.root}, "opts": q.compile_kwargs()})
+            res.count("near-miss/hygiene")
+            res.count("near-miss/hygiene/" + label)
+
+        # value / name hygiene (vlib.defgen.add_hygiene): non-finite and boolean constants, names that are no identifiers, definitions named
+        # like native types, fields named like Python descriptors / later field types / Python or C keywords, constants named like fields.
+        # Every kind once per run on the smallest base (kind j on shard j mod 16)
+        for j, kind in enumerate(G.HYGIENE_KINDS):
+            if j % 16 == idx:
+                hygiene(G.add_hygiene(G.minimal_program(import_coredefs=False), G.RandomChooser(seed * 100 + j), kind))
+                res.evaluations += 1
+
         def body(v):
             program, cseed = v
+            if "hygiene" in program.classes:
+                hygiene(program)
+                return
             if cseed % 4:  # three programs out of four get the long float constants
                 program = enrich_constants(program, cseed)
             one(program, "random-programs")
@@ -788,10 +838,11 @@ def shard(seed, n, idx, quick):
                 res.sample({"shape": program.shape, "options": program.options, "classes": sorted(program.classes)[:20], "files": list(program.files)})
 
         base = G.programs(validate_alignment=True)
-        opt = G.programs(validate_alignment=True, allow=ALLOW)
+        opt = G.programs(validate_alignment=True, allow=ALLOW + EXPRS)
         former = G.programs(validate_alignment=True, allow=FORMER, skeleton=True)
-        nocore = G.programs(validate_alignment=True, import_coredefs=False, rich=True)
-        hyp_run(body, st.tuples(st.one_of(base, nocore, former, nocore, opt, former), st.integers(0, 2 ** 32)), seed, n, res, collect=True)
+        nocore = G.programs(validate_alignment=True, import_coredefs=False, rich=True, allow=EXPRS)
+        hyg = G.hygiene_programs(validate_alignment=True, max_files=3)
+        hyp_run(body, st.tuples(st.one_of(base, nocore, former, nocore, opt, former, nocore, hyg), st.integers(0, 2 ** 32)), seed, n, res, collect=True)
     finally:
         E.close()
         L.cleanup()
@@ -800,7 +851,7 @@ def shard(seed, n, idx, quick):
 
 def run(ctx: RunContext) -> int:
     t0 = time.time()
-    n = ctx.scale(20, 190)
+    n = ctx.scale(28, 260)
     res = run_shards(shard, [(derive_seed(ctx.seed, i), n, i, ctx.quick) for i in range(16)])
     return conclude(ctx, res, RULE, ASSUME, t0)
 
